@@ -703,11 +703,16 @@ class CallMixin:
             pf.__dict__["pre_args"] = list(f0.__dict__.get("pre_args") or []) + list(args[1:])
             pf.__dict__["pre_kwargs"] = {**(f0.__dict__.get("pre_kwargs") or {}), **kwargs}
             return pf
-        if x.mod == "itertools" and nm == "chain" and not kwargs:
+        if x.mod == "itertools" and nm in ("chain", "chain.from_iterable") and not kwargs:
             # chain(a, b, ...) over containers whose items are known: the concatenation, consumed once in order
-            parts = [self.concrete_items(a) for a in args]
-            if all(p_ is not None for p_ in parts):
-                return SList("concrete", [i_ for p_ in parts for i_ in p_])
+            srcs = list(args) if nm == "chain" else (self.concrete_items(args[0]) if len(args) == 1 else None)
+            if srcs is not None:
+                parts = [self.concrete_items(a) for a in srcs]
+                if all(p_ is not None for p_ in parts):
+                    return SList("concrete", [i_ for p_ in parts for i_ in p_])
+                o_ = SOpaque(("chain",) + tuple(short(a_) for a_ in srcs))
+                o_.__dict__["chain_parts"] = list(srcs)       # a `for` over it runs over the parts one after the other
+                return o_
         if x.mod == "typing" and nm == "cast":
             # types-lite: a cast refines the kind set (the developer's claim is trusted; listed as an assumption)
             v = args[1]
